@@ -976,6 +976,7 @@ type c04Replay struct {
 	Kind   string      `json:"kind"`
 	Case   int         `json:"case"`
 	Seed   uint64      `json:"case_seed"`
+	CaseNo int         `json:"caseNo,omitempty"`
 	Cfg    interface{} `json:"cfg,omitempty"`
 	Detail string      `json:"detail,omitempty"`
 	Ops    []string    `json:"ops,omitempty"`
